@@ -679,10 +679,10 @@ func stringJoinFunc(q, arg1 query) func(query, iterator) interface{} {
 			}
 		}
 
-		q = functionArgs(q)
-		test := predicate(q)
+		arg := functionArgs(q)
+		test := predicate(arg)
 		var parts []string
-		switch v := q.Evaluate(t).(type) {
+		switch v := arg.Evaluate(t).(type) {
 		case string:
 			return v
 		case query:
